@@ -1,13 +1,383 @@
-import sys
-sys.path.insert(0, "/verif/tools")
+"""C49 -- MTest results do not depend on solver options (acceleration algorithms, GenericSolver).
+Engine H: Gallina models (C49Model.v, over a record of field operations) of 8 of the 13 acceleration algorithms
+(Secant, AlternateSecant, CrossedSecant, IronsTuck, Steffensen, Cast3M, UAnderson, FAnderson); Coq theorems over R (fixed points
+preserved, exactness on scalar affine problems, least-squares optimality of the Anderson weights for two fields, distance between two
+accepted states for a strongly monotone residual).  Tie: the REAL classes compiled from the working tree, fed scripted iterate sequences
+of dyadic rationals, outputs compared with the model run on Q inside Coq (vm_compute); closed-loop runs of the real classes on affine
+maps checked against the theorem statements; the REAL GenericSolver on scripted monotone problems under every algorithm x prediction
+policy x stiffness type x rounding mode, converged states compared pairwise with the proved bound (search only)."""
+import math, re
+from fractions import Fraction as Fr
 from vlib import guarded_main
-ALGOS = ["Cast3M", "Secant", "AlternateSecant", "AlternateDelta2", "Alternate2Delta", "CrossedSecant", "CrossedDelta2", "Crossed2Delta", "Crossed2Deltabis", "Steffensen", "IronsTuck", "UAnderson", "FAnderson"]
+
+ALGOS = ["Cast3M", "Secant", "AlternateSecant", "AlternateDelta2", "Alternate2Delta", "CrossedSecant", "CrossedDelta2", "Crossed2Delta",
+         "Crossed2Deltabis", "Steffensen", "IronsTuck", "UAnderson", "FAnderson"]
+MODELLED = ["Secant", "AlternateSecant", "CrossedSecant", "IronsTuck", "Steffensen", "Cast3M", "UAnderson", "FAnderson"]
 FILES = {"Cast3M": "Castem"}
-REPO_SRC = ["mtest/src/GenericSolver.cxx", "mtest/src/AccelerationAlgorithm.cxx", "mtest/src/AccelerationAlgorithmFactory.cxx", "mtest/src/RoundingMode.cxx",
-            "mtest/src/StudyCurrentState.cxx", "mtest/src/SolverOptions.cxx", "mtest/src/Solver.cxx", "mtest/src/Study.cxx"] + \
-           ["mtest/src/%sAccelerationAlgorithm.cxx" % FILES.get(a, a) for a in ALGOS]
-LIBS = ["-lTFELMTest", "-lTFELMathParser", "-lTFELMathKriging", "-lTFELMath", "-lTFELUtilities", "-lTFELException", "-lTFELTests", "-lTFELSystem", "-lMFrontLogStream"]
+REPO_SRC = ["mtest/src/GenericSolver.cxx", "mtest/src/AccelerationAlgorithm.cxx", "mtest/src/AccelerationAlgorithmFactory.cxx",
+            "mtest/src/RoundingMode.cxx", "mtest/src/StudyCurrentState.cxx", "mtest/src/SolverOptions.cxx", "mtest/src/Solver.cxx",
+            "mtest/src/Study.cxx"] + ["mtest/src/%sAccelerationAlgorithm.cxx" % FILES.get(a, a) for a in ALGOS]
+LIBS = ["-lTFELMTest", "-lTFELMathParser", "-lTFELMathKriging", "-lTFELMath", "-lTFELUtilities", "-lTFELException", "-lTFELTests",
+        "-lTFELSystem", "-lMFrontLogStream"]
+EPS = Fr(1, 2 ** 52)
+# default triggers / periods of the classes (initialize()), also given explicitly through setParameter in part of the cases
+DEFAULT_TRIGGER = {"Secant": 3, "AlternateSecant": 2, "CrossedSecant": 2, "IronsTuck": 2, "Steffensen": 3, "Cast3M": 4}
+
+HEADER = """From Coq Require Import List ZArith QArith.
+From C49 Require Import C49Model.
+Import ListNotations.
+Definition pq (q : Q) := (Qnum q, Zpos (Qden q)).
+Definition pv (l : list (list Q)) := map (map pq) l.
+Definition po (l : list (option (list Q))) := map (fun o => match o with Some v => Some (map pq v) | None => None end) l.
+Definition I2 := (list Q * list Q)%type.
+"""
+
+
+def q(x):
+    x = Fr(x)
+    return "(%d # %d)" % (x.numerator, x.denominator)
+
+
+def qv(v):
+    return "[" + "; ".join(q(x) for x in v) + "]"
+
+
+def hexf(x):
+    return float(x).hex()
+
+
+def model_term(algo, params, dim, eeps, seps, script):
+    """Coq term computing the outputs of the model on a script of (u1, du, r)"""
+    it_eps = 100 * eeps * EPS
+    sa_eps = 100 * seps * EPS
+    trig = params.get("AccelerationTrigger", DEFAULT_TRIGGER.get(algo, 0))
+    if algo == "Secant":
+        data = "[" + "; ".join("(%s, %s)" % (qv(u), qv(r)) for u, du, r in script) + "]"
+        return "pv (run (fun st it (x : I2) => secant_step QF %d %s st it (fst x) (snd x)) (st2_init QF %d) 1%%nat %s)" % (trig, q(sa_eps), dim, data)
+    if algo in ("AlternateSecant", "CrossedSecant", "IronsTuck"):
+        f = {"AlternateSecant": "altsecant_step", "CrossedSecant": "crossedsecant_step", "IronsTuck": "ironstuck_step"}[algo]
+        data = "[" + "; ".join("(%s, %s)" % (qv(u), qv(du)) for u, du, r in script) + "]"
+        return "pv (run (fun st it (x : I2) => %s QF %d %s st it (fst x) (snd x)) (st2_init QF %d) 1%%nat %s)" % (f, trig, q(it_eps * it_eps), dim, data)
+    if algo == "Steffensen":
+        data = "[" + "; ".join(qv(u) for u, du, r in script) + "]"
+        return "pv (run (fun st it (x : list Q) => steffensen_step QF %d %s st it x) (st3_init QF %d) 1%%nat %s)" % (trig, q(it_eps), dim, data)
+    if algo == "Cast3M":
+        per = params.get("AccelerationPeriod", 2)
+        data = "[" + "; ".join("(%s, %s)" % (qv(u), qv(r)) for u, du, r in script) + "]"
+        return "pv (run (fun st it (x : I2) => castem_step QF %d %d %s st it (fst x) (snd x)) (st3_init QF %d) 1%%nat %s)" % (trig, per, q(sa_eps * sa_eps), dim, data)
+    nmax, almax = params.get("MethodOrder", 4), params.get("AccelerationPeriod", 2)
+    if algo == "UAnderson":
+        data = "[" + "; ".join("(%s, %s)" % (qv(u), qv(du)) for u, du, r in script) + "]"
+        return "po (run_opt (fun st it (x : I2) => uanderson_step QF %d %d st it (fst x) (snd x)) (ast_init QF %d %d) 1%%nat %s)" % (nmax, almax, almax, dim, data)
+    data = "[" + "; ".join("(%s, %s)" % (qv(u), qv(r)) for u, du, r in script) + "]"
+    return "po (run_opt (fun st it (x : I2) => fanderson_step QF %d %d st it (fst x) (snd x)) (ast_init QF %d %d) 1%%nat %s)" % (nmax, almax, almax, dim, data)
+
+
+def castem_near_tie(script, seps):
+    """True when one Cast3M branch condition of the script is (nearly) an equality: the real code evaluates it with sqrt and
+    rounding, the model exactly; such scripts are not used (filter only, never an oracle)"""
+    ca2 = (100 * seps * EPS) ** 2
+    dot = lambda a, b: sum(x * y for x, y in zip(a, b))
+    rs = [None, None] + [r for u, du, r in script]
+    for i in range(2, len(rs)):
+        r0, r1, r2 = rs[i - 2], rs[i - 1], rs[i]
+        if r0 is None or r1 is None:
+            z = [Fr(0)] * len(r2)
+            r0 = r0 or z
+            r1 = r1 or z
+        t0 = [a - b for a, b in zip(r1, r0)]
+        t1 = [a - b for a, b in zip(r2, r0)]
+        n0 = dot(t0, t0)
+        if n0 != 0 and abs(n0 - ca2) <= Fr(1, 10 ** 6) * ca2:
+            return True
+        if n0 > ca2:
+            s = dot(t1, t0)
+            t1p = [a - s / n0 * b for a, b in zip(t1, t0)]
+            lhs, rhs = s * s, 100 * dot(t1p, t1p) * n0
+            if lhs != 0 and lhs != rhs and abs(lhs - rhs) <= Fr(1, 10 ** 6) * max(lhs, rhs):
+                return True
+            if lhs == rhs and lhs != 0:
+                return True
+    return False
+
+
+def gen_script(rng, algo, dim, niter, kind):
+    """scripted (u1, du, r) per iteration, dyadic rationals k/8 * 2^-j"""
+    if kind == "tiny":
+        j = rng.randint(18, 30) if algo == "Secant" else rng.randint(40, 56)
+        scale = Fr(1, 2 ** j)
+    else:
+        scale = Fr(1)
+    val = lambda: Fr(rng.randint(-40, 40), 8) * scale
+    vec = lambda: [val() for _ in range(dim)]
+    script = []
+    base, dirv = vec(), vec()
+    for it in range(niter):
+        u, du, r = vec(), vec(), vec()
+        if kind == "collinear":       # residuals on a line (Cast3M second branch), G-values generic
+            k = Fr(rng.randint(-6, 6))
+            r = [b + k * d for b, d in zip(base, dirv)]
+            du = [b - k * d for b, d in zip(base, dirv)]
+        if kind == "repeat" and script and rng.random() < 0.4:   # unchanged inputs: zero differences, guards fail
+            u, du, r = script[-1]
+            if rng.random() < 0.5:
+                u = vec()
+        if kind == "arith" and len(script) >= 2 and rng.random() < 0.6:   # arithmetic progression of G-values (Steffensen: i1 = i2)
+            u = [2 * a - b for a, b in zip(script[-1][0], script[-2][0])]
+        script.append((u, du, r))
+    return script
+
+
+def parse_pairs(txt):
+    """[[(n, d); ...]; ...] or [Some [...]; None] -> list of lists of Fractions / None"""
+    out = []
+    body = txt.strip()
+    for m in re.finditer(r"None|\[((?:\s*\(\s*-?\d+\s*,\s*\d+\s*\)\s*;?)*)\]", body):
+        if m.group(0) == "None":
+            out.append(None)
+        else:
+            out.append([Fr(int(a), int(b)) for a, b in re.findall(r"\(\s*(-?\d+)\s*,\s*(\d+)\s*\)", m.group(1))])
+    return out
+
+
 def main(c):
-    exe = c.cxx("driver", ["driver.cxx"], REPO_SRC, flags=["-ffp-contract=off"], libs=LIBS, link_repo_libs=True)
-    print(exe)
+    exe = c.cxx("driver", ["driver.cxx"], REPO_SRC, flags=["-ffp-contract=off", "-frounding-math"], libs=LIBS, link_repo_libs=True)
+    c.trusted("driver props/C49/driver.cxx (SEQ: scripted inputs to AccelerationAlgorithm::execute; LOOP: closed loop on an affine map; SOLVE: scripted "
+              "monotone Study around the real GenericSolver::execute, modelled on MTest::checkConvergence / initializeWorkSpace)",
+              "files not listed in the driver's repo_sources (LUSolve is header-only; MFrontLogStream, tfel::raise, vector/matrix support) come from /repo/include and the "
+              "libraries built in /repo/_build",
+              "the harness computes the thresholds handed to the models (100*eps*2^-52 and its square) and filters Cast3M scripts whose branch conditions are near ties",
+              "Cast3M is modelled in its square-root-free algebraic form; the Anderson weights by their meaning C^-1 1/(1^T C^-1 1) (Gauss elimination), not by GSFactorD")
+    rng = c.rng
+    # ================================================================ (1) scripted sequences: real classes vs model on Q
+    ncase = c.pick(22, 150)
+    cases = []
+    for algo in MODELLED:
+        kinds = ["random", "random", "repeat", "tiny"]
+        if algo == "Cast3M":
+            kinds = ["random", "random", "collinear", "collinear", "repeat", "tiny"]
+        if algo == "Steffensen":
+            kinds = ["random", "arith", "arith", "repeat", "tiny"]
+        if algo in ("UAnderson", "FAnderson"):
+            kinds = ["random"]
+        k = 0
+        while k < ncase:
+            kind = kinds[k % len(kinds)]
+            params = {}
+            if algo in ("UAnderson", "FAnderson"):
+                params = {"MethodOrder": rng.choice([2, 2, 3, 4]), "AccelerationPeriod": rng.choice([1, 2, 3])}
+                dim = params["MethodOrder"] + rng.randint(1, 2)    # Gram matrices non singular (rank-deficient path not modelled)
+                niter = rng.randint(4, 9)
+            else:
+                dim = rng.randint(1, 3)
+                niter = rng.randint(4, 8)
+                if rng.random() < 0.5:
+                    lo = 2 if algo in ("IronsTuck", "AlternateSecant", "CrossedSecant") else 3
+                    params["AccelerationTrigger"] = rng.randint(lo, 5)
+                if algo == "Cast3M" and rng.random() < 0.5:
+                    params["AccelerationPeriod"] = rng.randint(1, 3)
+            eeps, seps = Fr(1, 2 ** rng.choice([3, 10, 20])), Fr(1, 2 ** rng.choice([3, 10, 20]))
+            script = gen_script(rng, algo, dim, niter, kind)
+            if algo == "Cast3M" and castem_near_tie(script, seps):
+                continue
+            cases.append((algo, params, dim, eeps, seps, kind, script))
+            k += 1
+    lines, v = [], [HEADER]
+    for algo, params, dim, eeps, seps, kind, script in cases:
+        flat = " ".join(" ".join(hexf(x) for x in u + du + r) for u, du, r in script)
+        lines.append("SEQ %s %d %s %d %d %s %s %s" % (algo, len(params), " ".join("%s %d" % kv for kv in sorted(params.items())), dim,
+                                                      len(script), hexf(eeps), hexf(seps), flat))
+        v.append("Eval vm_compute in %s." % model_term(algo, params, dim, eeps, seps, script))
+    rc, out, err = c.run([exe], input="\n".join(lines) + "\n", timeout=300)
+    res = [l for l in out.splitlines() if l[:2] in ("O ", "X ", "E ") or l == "O"]
+    if rc != 0 or len(res) != len(lines):
+        c.report("driver", "driver failed (rc=%d, %d answers for %d commands): %s" % (rc, len(res), len(lines), err[-400:]), {"stderr": err[-3000:]}, False)
+        return
+    rc, mout, merr = c.coq_eval(["C49Model.v"], "\n".join(v) + "\n", timeout=900)
+    if rc != 0:
+        c.report("model-eval", "model evaluation failed: " + merr[-600:], {"stderr": merr[-3000:]}, False)
+        return
+    mres = [parse_pairs(ch.split("\n     : ")[0].replace("%Z", "")) for ch in re.split(r"(?m)^\s{5}= ", mout)[1:]]
+    if len(mres) != len(cases):
+        c.report("model-eval", "model returned %d results for %d cases" % (len(mres), len(cases)), {"stdout": mout[-2000:]}, False)
+        return
+    nundef = 0
+    accel = {a: 0 for a in MODELLED}
+    for (algo, params, dim, eeps, seps, kind, script), line, mm in zip(cases, res, mres):
+        key = "seq:%s:%s:%d:%s:%s:%s" % (algo, ",".join("%s=%d" % kv for kv in sorted(params.items())), dim, hexf(eeps), hexf(seps),
+                                        ";".join(",".join(str(x) for x in u + du + r) for u, du, r in script))
+        if not line.startswith("O"):
+            c.count(1, key, False)
+            c.report(key, "%s%r raised on the script %r: %s" % (algo, params, script, line), {"algo": algo, "params": params, "script": repr(script), "real": line}, True)
+            continue
+        real = [float.fromhex(x) if "x" in x else float(x) for x in line.split()[1:]]
+        real = [real[i * dim:(i + 1) * dim] for i in range(len(script))]
+        mag = max([abs(x) for u, du, r in script for x in u + du + r] + [Fr(0)])
+        tol_rel = 1e-7 if "Anderson" in algo else 1e-9
+        bad = None
+        nontrivial = False
+        for it, (mo, ro) in enumerate(zip(mm, real)):
+            if mo is None:       # weights undefined in the model (singular Gram matrix): the degenerate path of the C++ is not modelled
+                nundef += 1
+                break
+            if any(a != b for a, b in zip(mo, script[it][0])):
+                nontrivial = True
+                accel[algo] += 1
+            for i in range(dim):
+                tol = tol_rel * float(mag + abs(mo[i]))
+                if not (abs(ro[i] - float(mo[i])) <= tol):
+                    bad = bad or (it + 1, i, ro[i], float(mo[i]))
+        c.count(1, key, nontrivial)
+        if bad and len(c.violations) < 4:
+            c.report(key, "%s (parameters %r, dimension %d, eeps=%s, seps=%s) fed the scripted iterates (u1, du, r) = %s returns at iteration %d component %d "
+                     "the value %r; the model of the acceleration formula (run on Q) gives %r" % (
+                         algo, params, dim, eeps, seps, [tuple([float(x) for x in w] for w in t) for t in script], bad[0], bad[1], bad[2], bad[3]),
+                     {"algo": algo, "params": params, "dim": dim, "eeps": str(eeps), "seps": str(seps), "script": [[[str(x) for x in w] for w in t] for t in script],
+                      "real": real, "model": [[str(x) for x in mo] if mo is not None else None for mo in mm], "driver_line": line}, True)
+    c.sample({"seq_case": {"algo": cases[0][0], "params": cases[0][1], "dim": cases[0][2], "script": [[[str(x) for x in w] for w in t] for t in cases[0][6]]},
+              "real": res[0][:200], "model": [[str(x) for x in mo] for mo in mres[0] if mo is not None]})
+    # ================================================================ (2) the theorem statements on the real classes (independent of the model)
+    lines2, meta = [], []
+    nloop = c.pick(6, 40)
+    for algo in ALGOS:
+        for k in range(nloop):
+            # (a) scalar affine map G(x) = xs + cc (x - xs), r = kk (x - G x): exactness
+            xs = Fr(rng.randint(-16, 16), 4)
+            cc = Fr(rng.choice([-5, -3, -2, 2, 3, 5, 6]), 8)
+            kk = Fr(rng.choice([1, 2, 4, 8]))
+            x0 = xs + Fr(rng.choice([-8, -4, -2, 2, 4, 8]), 2)
+            lines2.append("LOOP %s 0 1 8 %s %s %s %s %s %s" % (algo, hexf(Fr(1, 2 ** 30)), hexf(Fr(1, 2 ** 30)), hexf(kk), hexf(xs), hexf(cc), hexf(x0)))
+            meta.append(("affine1", algo, (xs, cc, kk, x0)))
+        for k in range(c.pick(3, 20)):
+            # (b) iterates at the fixed point: u1 = x*, du = 0, r = 0 at every iteration
+            dim = rng.randint(1, 3)
+            xst = [Fr(rng.randint(-40, 40), 8) for _ in range(dim)]
+            one = " ".join(hexf(x) for x in xst + [Fr(0)] * (2 * dim))
+            lines2.append("SEQ %s 0 %d 6 %s %s %s" % (algo, dim, hexf(Fr(1, 2 ** 30)), hexf(Fr(1, 2 ** 30)), " ".join([one] * 6)))
+            meta.append(("fixed", algo, xst))
+    rc, out, err = c.run([exe], input="\n".join(lines2) + "\n", timeout=300)
+    res2 = [l for l in out.splitlines() if l[:2] in ("O ", "L ", "X ", "E ")]
+    if rc != 0 or len(res2) != len(lines2):
+        c.report("driver2", "driver failed on the closed-loop runs: " + err[-400:], {"stderr": err[-3000:]}, False)
+        return
+    # first iteration after which the iterate must be the solution of the scalar affine problem (from the theorems + default triggers);
+    # None: no exactness claimed (Anderson: rank-deficient Gram matrix in dimension 1; *Delta2/2Delta variants: not modelled)
+    EXACT_AT = {"Secant": 3, "AlternateSecant": 2, "CrossedSecant": 2, "IronsTuck": 2, "Steffensen": 3, "Cast3M": 4}
+    nan_fixed = {}
+    for (kind, algo, data), line in zip(meta, res2):
+        vals = [float.fromhex(x) if "x" in x else float(x) for x in line.split()[1:]] if line[0] in "OL" else None
+        if kind == "affine1":
+            xs, cc, kk, x0 = data
+            key = "loop:%s:%s:%s:%s:%s" % (algo, xs, cc, kk, x0)
+            it = EXACT_AT.get(algo)
+            c.count(1, key, it is not None)
+            if vals is None:
+                c.report(key, "%s raised in a closed loop on G(x) = %s + %s (x - %s): %s" % (algo, xs, cc, xs, line), {"line": line}, True)
+            elif it is not None:
+                tol = 1e-11 * (1 + abs(float(xs)) + abs(float(x0)))
+                if not all(abs(x - float(xs)) <= tol for x in vals[it:]) and len(c.violations) < 6:
+                    c.report(key, "%s in a closed loop x_{n+1} = accelerate(G(x_n)) on the scalar affine map G(x) = %s + %s (x - %s), residual r = %s (x - G x), from x0 = %s "
+                             "gives the iterates %r: not at the fixed point %s from iteration %d on (exactness theorem of the model)" % (
+                                 algo, xs, cc, xs, kk, x0, vals, xs, it), {"algo": algo, "xs": str(xs), "c": str(cc), "k": str(kk), "x0": str(x0), "iterates": vals}, True)
+        else:
+            key = "fixed:%s:%s" % (algo, ",".join(str(x) for x in data))
+            c.count(1, key, True)
+            dim = len(data)
+            ok = vals is not None and all(vals[i] == float(data[i % dim]) for i in range(len(vals)))
+            if not ok:
+                if vals is not None and "Anderson" in algo and all(x != x or x == float(data[i % dim]) for i, x in enumerate(vals)):
+                    nan_fixed[algo] = nan_fixed.get(algo, 0) + 1     # 0/0 in the normalisation of the weights: theorem anderson_all_zero_undefined
+                elif len(c.violations) < 6:
+                    c.report(key, "%s fed iterates that all sit at the fixed point %r (du = 0, r = 0) returns %r" % (algo, [float(x) for x in data], vals),
+                             {"algo": algo, "fixed_point": [str(x) for x in data], "outputs": vals}, True)
+    if nan_fixed:
+        c.notes.append("Anderson fed iterates that all sit at a fixed point (every D field zero) returns NaN (0/0 in the normalisation of the weights, theorem "
+                       "C49_anderson_all_zero_undefined): %r runs. Not reachable through GenericSolver::iterate with MTest's convergence test, which accepts such an "
+                       "iterate before calling the acceleration; reported as an observation, not as a violation." % nan_fixed)
+    # ================================================================ (3) the real GenericSolver under every option: pairwise agreement (search only)
+    nprob = c.pick(6, 40)
+    nconf = c.pick(28, 60)
+    RM = ["ToNearest", "UpWard", "DownWard", "TowardZero"]
+    lines3, meta3 = [], []
+    for p in range(nprob):
+        N = rng.randint(1, 4)
+        A = [[Fr(0)] * N for _ in range(N)]
+        for i in range(N):
+            for j in range(i):
+                A[i][j] = A[j][i] = Fr(rng.randint(-4, 4), 4)
+        for i in range(N):
+            A[i][i] = sum(abs(A[i][j]) for j in range(N) if j != i) + Fr(rng.randint(2, 12), 4)
+        m = min(A[i][i] - sum(abs(A[i][j]) for j in range(N) if j != i) for i in range(N))   # Gershgorin: lambda_min(A) >= m > 0
+        b = [Fr(rng.randint(-16, 16), 4) for _ in range(N)]
+        g = Fr(rng.choice([0, 0, 1, 4]), 2)
+        eeps, seps = rng.choice([1e-6, 1e-9, 1e-11]), rng.choice([1e-4, 1e-7, 1e-10])
+        times = [Fr(0)]
+        for _ in range(rng.randint(1, 3)):
+            times.append(times[-1] + Fr(rng.randint(1, 4), 4))
+        confs = [("none", 0, 4, "ToNearest", Fr(0))]
+        for a in ALGOS:
+            confs.append((a, rng.randint(0, 5), rng.choice([1, 2, 3, 4, 5]), rng.choice(RM), Fr(rng.choice([0, 1, 2]), 4)))
+        while len(confs) < nconf:
+            confs.append((rng.choice(["none"] + ALGOS), rng.randint(0, 5), rng.choice([1, 2, 3, 4, 5]), rng.choice(RM), Fr(rng.choice([0, 1, 2]), 4)))
+        for (a, pp, kt, rm, s) in confs:
+            lines3.append("SOLVE %s 0 %d %s %s %s %s %d %d %s %s %s 200 12 %d %s" % (
+                a, N, " ".join(hexf(x) for row in A for x in row), " ".join(hexf(x) for x in b), hexf(g), hexf(s), pp, kt, rm, repr(eeps), repr(seps),
+                len(times) - 1, " ".join(hexf(t) for t in times)))
+            meta3.append((p, N, A, b, g, m, eeps, seps, times, (a, pp, kt, rm, s)))
+    rc, out, err = c.run([exe], input="\n".join(lines3) + "\n", timeout=600)
+    res3 = [l for l in out.splitlines() if l[:2] in ("R ", "X ", "E ")]
+    if rc != 0 or len(res3) != len(lines3):
+        c.report("driver3", "driver failed on the solver runs: " + err[-400:], {"stderr": err[-3000:]}, False)
+        return
+    byprob, failed = {}, {}
+    for mt, line in zip(meta3, res3):
+        t = line.split()
+        conf = mt[9]
+        if t[0] != "R" or t[1] != "done":
+            failed[conf[0]] = failed.get(conf[0], 0) + 1
+            c.count(1, ("solve", mt[0], conf), False)
+            continue
+        u = [float.fromhex(x) for x in t[t.index("U") + 1:]]
+        byprob.setdefault(mt[0], []).append((conf, u, int(t[2]), mt))
+        c.count(1, ("solve", mt[0], conf), int(t[2]) > len(mt[8]) - 1)
+    npairs = 0
+    for p, runs in sorted(byprob.items()):
+        _, N, A, b, g, m, eeps, seps, times, _ = runs[0][3]
+        bound = 2 * math.sqrt(N) * seps / float(m) + 2 * eeps
+        nval = len(runs[0][1])
+        for idx in range(nval):
+            vals = [(u[idx], conf) for conf, u, _, _ in runs]
+            lo, hi = min(vals), max(vals)
+            slack = 1e-12 * (1 + abs(lo[0]) + abs(hi[0]))
+            if not (hi[0] - lo[0] <= bound + slack) and len(c.violations) < 6:
+                c.report("solve:%d:%s:%s:%d:%r:%r" % (N, ",".join(str(x) for row in A for x in row), ",".join(str(x) for x in b), idx, lo[1], hi[1]),
+                         "GenericSolver on r(u,t) = A u + g u^3 - b t with A=%r b=%r g=%s (strongly monotone, modulus >= %s), eeps=%r seps=%r, times %r: unknown %d after "
+                         "step %d converges to %r with options (algorithm, prediction policy, stiffness type, rounding mode, s) = %r and to %r with %r; difference %r > "
+                         "tolerance-derived bound %r" % ([[float(x) for x in r] for r in A], [float(x) for x in b], g, m, eeps, seps, [float(t) for t in times],
+                                                         idx % N, idx // N + 1, lo[0], lo[1], hi[0], hi[1], hi[0] - lo[0], bound),
+                         {"A": [[str(x) for x in r] for r in A], "b": [str(x) for x in b], "g": str(g), "eeps": eeps, "seps": seps, "times": [str(t) for t in times],
+                          "low": [lo[0], list(map(str, lo[1]))], "high": [hi[0], list(map(str, hi[1]))], "bound": bound}, True)
+        npairs += len(runs) * (len(runs) - 1) // 2
+    if byprob:
+        r0 = byprob[min(byprob)]
+        c.sample({"solve_problem": {"A": [[str(x) for x in r] for r in r0[0][3][2]], "b": [str(x) for x in r0[0][3][3]], "g": str(r0[0][3][4])},
+                  "final_states": [{"options": list(map(str, conf)), "u": u, "iterations": it} for conf, u, it, _ in r0[:4]]})
+    if failed:
+        c.notes.append("GenericSolver runs that did not converge (exception after sub-stepping; not a violation of C49, which speaks of converged results): %r of %d runs" % (
+            failed, len(lines3)))
+    c.coverage["rule"] = (
+        "seeded (VERIF_SEED). (1) %d scripted sequences (4-9 iterations, dimension 1-3, 3-6 for Anderson; dyadic rationals k/8, also scaled by 2^-18..2^-56 so that the "
+        "guards `> eps` fall on both sides; kinds random / repeated inputs / collinear residuals / arithmetic progressions) through the real %s, every output compared with "
+        "the model on Q (tolerance 1e-9 relative to the magnitudes, 1e-7 for Anderson); accelerated outputs (model output differs from the input u1): %r; %d sequences cut "
+        "at a singular Gram matrix. non-trivial = at least one iteration really accelerated. (2) %d closed-loop runs of all 13 real classes on scalar affine maps "
+        "(exactness where a theorem claims it) and at a fixed point. (3) %d problems x %d option sets (13 algorithms + none, 6 prediction policies, 5 stiffness types, "
+        "4 rounding modes) through the real GenericSolver, %d pairs of converged runs compared with the bound 2 sqrt(n) seps/m + 2 eeps (search only)" % (
+            len(cases), ", ".join(MODELLED), accel, nundef, len(lines2), nprob, nconf, npairs))
+    c.coverage["traces_validated_against_impl"] = len(cases)
+    # ================================================================ (4) theorems
+    r = c.coq(["C49Model.v", "C49Spec.v", "C49Proofs.v", "Properties_C49.v"], timeout=900)
+    if not r.ok:
+        c.coq_failures(r)
+
+
 guarded_main("C49", main)
